@@ -300,6 +300,8 @@ pub fn gen_cases(mode: &str, tier: &str, seed: u64, out: &str) {
                 emit(&mut w, format!("h{}k{}-B", h, k), &c, sp2, at, st);
             }
         }
+        // atoms on tabulated Wyckoff positions (C07, C16(i)): generator in wyckoff.rs
+        "wyckoff" => crate::wyckoff::gen_cases(thorough, seed, &mut rng, &mut |tag, c, sp, at, st| emit(&mut w, tag, c, sp, at, st)),
         _ => panic!("unknown mode"),
     }
     w.finish();
